@@ -221,10 +221,12 @@ func (p *Prog) Flatten(anchors map[string]bool) ([]string, error) {
 				log = append(log, fmt.Sprintf("%s <- %s", p.FuncName(f), p.AnchorName(g)))
 				n++
 			}
-			if n == 0 {
+			if n == 0 && !(ssa.ThreadAllMerges && pass == 0) {
 				continue
 			}
-			changed = true
+			if n > 0 {
+				changed = true
+			}
 			for round := 0; round < 400; round++ {
 				if f.ThreadConstantBranches(nonNil) == 0 {
 					break
